@@ -1,14 +1,30 @@
 """C13 part B: generated layouts. Harness-side (zipfile + bare lxml + string templates, no python-pptx) replacement
 of the placeholder population of layouts of the default template, and the closed-form population spaces.
 
-A placeholder spec is the JSON-able list [type, orient, idx, xfrm, sz]:
+A placeholder spec is the JSON-able list [type, orient, idx, xfrm, sz] or [type, orient, idx, xfrm, sz, name]:
   type   None (attribute absent = 'obj') or one of the ST_PlaceholderType tokens of pml.xsd
   orient None (absent = 'horz') | 'vert'
   idx    None (absent = 0) | 0 | 1 | 10
   xfrm   True (explicit a:xfrm with position-specific numbers) | False
   sz     None (absent = 'full') | 'full' | 'half' | 'quarter'
+  name   (optional sixth member) the literal p:cNvPr/@name of the layout / notes-master placeholder; absent or None =
+         the position-specific name 'Gen <k+1>' (distinct inside one population)
 A population is an ordered list of specs (document order). Duplicate idx values arise in populations of two or
 more (equal idx values, or absent next to 0).
+
+Names of the SOURCE placeholders are a dimension of their own (a new slide's placeholders must be uniquely named whatever
+the layout calls its own). Per placeholder the name alphabet is
+  D  'Gen <k+1>'       distinct from everything else
+  S  'Shared'          one literal shared by every S member of the population
+  E  ''                empty
+  G  the name the library is documented to generate for ANOTHER clone of the same population ('<base name> <shape id
+     - 1>', 'Vertical ' prefix for orient=vert; the next member in document order, cyclically), e.g. 'Title 1' on the
+     second placeholder of a layout whose first one is a title
+  O  (populations of one) the name the library generates for this clone itself, as in the stock layouts
+and a population carries a name VECTOR, one letter per member (PAIR_NAME_VECTORS, TRIPLE_NAME_VECTORS,
+SINGLE_NAME_VECTORS). The vector is resolved to literal names by with_names() before the case is recorded, so a replay
+record is self-contained. The base-name table below is input generation only (no verdict depends on it); how often
+it predicts the library's names is reported as coverage.generated_name_prediction.
 """
 
 from __future__ import annotations
@@ -16,6 +32,7 @@ from __future__ import annotations
 import io
 import itertools
 import zipfile
+from xml.sax.saxutils import quoteattr
 
 from lxml import etree
 
@@ -54,8 +71,15 @@ def geo_for(k):
     return (x, y, 3000000 + 3333 * n, 400000 + 4444 * n)
 
 
+def spec_name(k, spec):
+    """Literal name of the placeholder at document position k."""
+    if len(spec) > 5 and spec[5] is not None:
+        return spec[5]
+    return "Gen %d" % (k + 1)
+
+
 def sp_xml(k, spec):
-    t, orient, idx, xfrm, sz = spec
+    t, orient, idx, xfrm, sz = spec[:5]
     attrs = ""
     if t is not None:
         attrs += ' type="%s"' % t
@@ -68,10 +92,10 @@ def sp_xml(k, spec):
     x = ""
     if xfrm:
         x = '<a:xfrm><a:off x="%d" y="%d"/><a:ext cx="%d" cy="%d"/></a:xfrm>' % geo_for(k)
-    return ('<p:sp><p:nvSpPr><p:cNvPr id="%d" name="Gen %d"/><p:cNvSpPr><a:spLocks noGrp="1"/></p:cNvSpPr>'
+    return ('<p:sp><p:nvSpPr><p:cNvPr id="%d" name=%s/><p:cNvSpPr><a:spLocks noGrp="1"/></p:cNvSpPr>'
             '<p:nvPr><p:ph%s/></p:nvPr></p:nvSpPr><p:spPr>%s</p:spPr>'
             '<p:txBody><a:bodyPr/><a:lstStyle/><a:p><a:endParaRPr lang="en-US"/></a:p></p:txBody></p:sp>'
-            % (k + 2, k + 1, attrs, x))
+            % (k + 2, quoteattr(spec_name(k, spec)), attrs, x))
 
 
 _HEAD = ('<?xml version="1.0" encoding="UTF-8" standalone="yes"?>\n'
@@ -181,6 +205,67 @@ def build_notes_deck(pop):
     return write_zip_stored(m), b["notes_master"]
 
 
+# ---- names of the source placeholders ------------------------------------------------------------------------
+
+SLIDE_BASENAMES = {
+    None: "Content Placeholder", "obj": "Content Placeholder", "title": "Title", "ctrTitle": "Title", "subTitle": "Subtitle",
+    "body": "Text Placeholder", "chart": "Chart Placeholder", "tbl": "Table Placeholder", "clipArt": "ClipArt Placeholder",
+    "dgm": "SmartArt Placeholder", "media": "Media Placeholder", "sldImg": "Slide Image Placeholder",
+    "pic": "Picture Placeholder", "dt": "Date Placeholder", "ftr": "Footer Placeholder",
+    "sldNum": "Slide Number Placeholder", "hdr": "Header Placeholder",
+}
+NOTES_BASENAMES = dict(SLIDE_BASENAMES, body="Notes Placeholder")
+SLIDE_LATENT = ("dt", "ftr", "sldNum")
+NOTES_CLONED = ("sldImg", "body", "sldNum")
+
+SHARED_NAME = "Shared"
+
+
+def _is_cloned(spec, where):
+    t = spec[0] or "obj"
+    return (t in NOTES_CLONED) if where == "notes" else (t not in SLIDE_LATENT)
+
+
+def generated_name(pop, k, where="slide"):
+    """The documented generated name of the clone of member k: '<base> <n>' with n = shape id - 1 = 1 + number of
+    members cloned before it (a member that is not cloned is given the name it would have had in its place)."""
+    spec = pop[k]
+    rank = len([s for s in pop[:k] if _is_cloned(s, where)])
+    base = (NOTES_BASENAMES if where == "notes" else SLIDE_BASENAMES)[spec[0]]
+    if spec[1] == "vert":
+        base = "Vertical " + base
+    return "%s %d" % (base, rank + 1)
+
+
+def with_names(pop, vector, where="slide"):
+    """Population with literal names (sixth member) according to the name vector, one letter per member."""
+    if len(vector) != len(pop):
+        raise ValueError("name vector %r for a population of %d" % (vector, len(pop)))
+    out = []
+    for k, (spec, letter) in enumerate(zip(pop, vector)):
+        if letter == "D":
+            name = None
+        elif letter == "S":
+            name = SHARED_NAME
+        elif letter == "E":
+            name = ""
+        elif letter == "G":
+            name = generated_name(pop, (k + 1) % len(pop), where)
+        elif letter == "O":
+            name = generated_name(pop, k, where)
+        else:
+            raise ValueError(letter)
+        out.append(list(spec[:5]) + ([name] if name is not None else []))
+    return out
+
+
+# every unordered class of {D, S, E, G}^2 that is not equivalent to DD (a single S next to a D is just two distinct names)
+PAIR_NAME_VECTORS = ["SS", "EE", "GG", "DE", "ED", "DG", "GD", "EG", "GE"]
+# two of three sharing one name (every placement), all three sharing it
+TRIPLE_NAME_VECTORS = ["SSS", "SSD", "SDS", "DSS"]
+SINGLE_NAME_VECTORS = ["E", "O"]
+
+
 # ---- spaces (pure functions of the bound) -----------------------------------------------------------------
 
 def singles(types):
@@ -191,7 +276,30 @@ def singles(types):
     return out, len(types) * 2 * 4 * 2 * 4 * 2
 
 
+def singles_names(types):
+    """types x orient x name {E, O}; idx 1, no xfrm, sz absent, template master."""
+    out = []
+    for t, o, v in itertools.product(types, ORIENTS, SINGLE_NAME_VECTORS):
+        out.append((with_names([[t, o, 1, False, None]], v), "template"))
+    return out, len(types) * 2 * len(SINGLE_NAME_VECTORS)
+
+
 PAIR_IDX_QUICK = [(None, None), (None, 1), (1, 1), (10, 1)]
+PAIR_NAMES_ORIENT_QUICK = [(None, None), (None, "vert")]
+PAIR_NAMES_IDX_QUICK = [(None, 1)]
+
+
+def pairs_names(types, thorough):
+    """Ordered pairs x the 9 name vectors; xfrm (True, False), sz absent, template master.
+    quick:    types^2 x 2 orient vectors {(h,h),(h,v)} x idx vector (a,1) x 9 name vectors
+    thorough: types^2 x orient^2 x the 4 idx vectors of the quick pairs x 9 name vectors   (superset of quick)."""
+    ovs = list(itertools.product(ORIENTS, repeat=2)) if thorough else PAIR_NAMES_ORIENT_QUICK
+    ivs = PAIR_IDX_QUICK if thorough else PAIR_NAMES_IDX_QUICK
+    out = []
+    for t1, t2 in itertools.product(types, repeat=2):
+        for (o1, o2), (i1, i2), v in itertools.product(ovs, ivs, PAIR_NAME_VECTORS):
+            out.append((with_names([[t1, o1, i1, True, None], [t2, o2, i2, False, None]], v), "template"))
+    return out, len(types) ** 2 * len(ovs) * len(ivs) * len(PAIR_NAME_VECTORS)
 
 
 def _pairs(types, idx_vectors, sz, master):
@@ -229,6 +337,15 @@ def triples(types):
     return out, len(types) ** 3 * len(TRIPLE_ORIENT) * len(TRIPLE_IDX) * len(TRIPLE_XFRM)
 
 
+def triples_names(types):
+    """ordered type triples x 4 name vectors; orient absent, idx (a,1,10), xfrm (T,F,T), template master, sz absent."""
+    out = []
+    for ts in itertools.product(types, repeat=3):
+        for v in TRIPLE_NAME_VECTORS:
+            out.append((with_names([[ts[0], None, None, True, None], [ts[1], None, 1, False, None], [ts[2], None, 10, True, None]], v), "template"))
+    return out, len(types) ** 3 * len(TRIPLE_NAME_VECTORS)
+
+
 NOTES_PAIR_TYPES = ["sldImg", "body", "sldNum", "hdr", "dt", "ftr"]
 
 
@@ -246,3 +363,20 @@ def notes_pairs(thorough=True):
         for (i1, i2), (x1, x2) in itertools.product(itertools.product(idxs, repeat=2), itertools.product(XFRMS, repeat=2)):
             out.append([[t1, None, i1, x1, None], [t2, None, i2, x2, None]])
     return out, len(NOTES_PAIR_TYPES) ** 2 * len(idxs) ** 2 * 4
+
+
+def notes_singles_names(types):
+    """types x orient x name {E, O}; idx 1, no xfrm, sz absent."""
+    out = [with_names([[t, o, 1, False, None]], v, "notes") for t, o, v in itertools.product(types, ORIENTS, SINGLE_NAME_VECTORS)]
+    return out, len(types) * 2 * len(SINGLE_NAME_VECTORS)
+
+
+def notes_pairs_names(thorough=True):
+    """Ordered pairs of notes-master placeholders x the 9 name vectors; xfrm (True, False).
+    quick: idx vector (a,1); thorough: the 4 idx vectors (a,a),(a,1),(1,1),(10,1)."""
+    ivs = PAIR_IDX_QUICK if thorough else PAIR_NAMES_IDX_QUICK
+    out = []
+    for t1, t2 in itertools.product(NOTES_PAIR_TYPES, repeat=2):
+        for (i1, i2), v in itertools.product(ivs, PAIR_NAME_VECTORS):
+            out.append(with_names([[t1, None, i1, True, None], [t2, None, i2, False, None]], v, "notes"))
+    return out, len(NOTES_PAIR_TYPES) ** 2 * len(ivs) * len(PAIR_NAME_VECTORS)
